@@ -79,7 +79,7 @@ class C02(Check):
                                  "secs": [{"union": False, "hdr": None, "items": first, "seal": "sealed"}]})
             ref = ["ref", rn + ".Apx", 1, 0]
             root["defs"].append({"name": rn + ".ApxHost", "ver": [1, 0], "port": None, "ext": "dsdl", "dep": False,
-                                 "secs": [{"union": False, "hdr": None, "items": [["f", ["arr", ref, rng.randint(2, 3)], "fa"], ["f", ["var", ref, 2], "va"], ["f", ref, "one"], ["f", ["u", 8, "s"], "tail"]], "seal": "sealed"}]})
+                                 "secs": [{"union": False, "hdr": None, "items": [["f", ["arr", ref, rng.randint(2, 3)], "fa"], ["f", ["var", ref, 2], "va"], ["f", ref, "one"], ["f", ["var", ref, 3], "vb"], ["f", ["arr", ref, 2], "fb"], ["f", ["u", 8, "s"], "tail"]], "seal": "sealed"}]})
             apx = {"key": rn + ".Apx.1.0", "alt_items": second}
         return {"ws": ws, "apx": apx}
 
